@@ -100,6 +100,8 @@ func runC30(c *core.Ctx) {
 			}
 		}
 	}
+	c.Rule("FMT8", "free-text string fields are not printed through a bare %s")
+	checkRawTextFields(c, "FMT8", formats)
 	c.Rule("FMT9", "each action arm of a printer prints a sentence some production accepts")
 	checkActionArms(c, "FMT9", formats)
 	// ---- printed: field reads inside Format methods and the methods they call on their receiver
